@@ -67,6 +67,8 @@ type ROp struct {
 	// the op is offered to the scheduler only once the named pchannel has
 	// published (delivered to any stream or passed) AfterSeq; -1 = from the start
 	AfterRound int `json:"after_round"`
+	// a start that is offered only after the start of this collection returned (0 = none)
+	AfterColl int64 `json:"after_coll,omitempty"`
 }
 
 type RScript struct {
@@ -195,6 +197,7 @@ func GenR(rng *Rng, prop string, tier string) *RScript {
 	dbs := []string{"default", "default", "dbx"}
 	usedTgt := map[string]bool{}
 	usedSrc := map[string]bool{}
+	alignedOn := map[int]int64{} // source pchannel index -> an aligned collection living there
 	type live struct {
 		c        *RColl
 		dropped  bool
@@ -235,14 +238,28 @@ func GenR(rng *Rng, prop string, tier string) *RScript {
 		srcIdx := append([]int(nil), idx[:nShard]...)
 		sort.Ints(srcIdx)
 		var tgtIdx []int
-		if free && nT >= nShard {
-			t := make([]int, nT)
-			for i := range t {
-				t[i] = i
+		crossedAfter := int64(0)
+		if free && nShard == 1 && len(alignedOn) >= 2 && rng.Pct(60) {
+			// a "crossed" single-shard collection: it lives on a source pchannel whose handler already
+			// serves another downstream channel, so its packs take the forward path. To keep every
+			// handler's downstream channel unique (the only deterministic configuration, see DESIGN 7)
+			// it is started only after an aligned collection on the same source pchannel.
+			var hosts []int
+			for i := range s.SrcP {
+				if alignedOn[i] != 0 {
+					hosts = append(hosts, i)
+				}
 			}
-			Shuffle(rng, t)
-			tgtIdx = append([]int(nil), t[:nShard]...)
-			sort.Ints(tgtIdx)
+			si := Pick(rng, hosts)
+			var others []int
+			for _, h := range hosts {
+				if h != si {
+					others = append(others, h)
+				}
+			}
+			srcIdx = []int{si}
+			tgtIdx = []int{Pick(rng, others)}
+			crossedAfter = alignedOn[si]
 		} else if prop == "C16" {
 			// unequal counts: the downstream places shards on its own channels round-robin
 			off := rng.Intn(nT)
@@ -296,7 +313,14 @@ func GenR(rng *Rng, prop string, tier string) *RScript {
 		}
 		s.Colls = append(s.Colls, c)
 		lives = append(lives, l)
-		s.Ops = append(s.Ops, &ROp{Kind: "start", Coll: c.ID, AfterRound: -1})
+		s.Ops = append(s.Ops, &ROp{Kind: "start", Coll: c.ID, AfterRound: -1, AfterColl: crossedAfter})
+		if crossedAfter == 0 && prop != "C16" {
+			for _, si := range srcIdx {
+				if alignedOn[si] == 0 {
+					alignedOn[si] = c.ID
+				}
+			}
+		}
 		for _, p := range c.Parts {
 			if p.Name == "_default" && rng.Pct(50) {
 				continue
